@@ -14,6 +14,21 @@ import ast
 from .core import norm
 
 
+def bind_unbound_defaults(fdef, env):
+    """A function body evaluated directly in `env` (parameters bound by the caller): parameters the caller did not bind take their
+    default values - a refactoring may add an optional parameter, which is then simply not passed."""
+    a = fdef.args
+    pos = a.posonlyargs + a.args
+    pairs = list(zip(pos, [None] * (len(pos) - len(a.defaults)) + list(a.defaults))) + list(zip(a.kwonlyargs, a.kw_defaults))
+    for p_, d_ in pairs:
+        if p_.arg not in env and d_ is not None:
+            env[p_.arg] = MiniEval(env).ev(d_)
+    if a.vararg is not None and a.vararg.arg not in env:
+        env[a.vararg.arg] = ()
+    if a.kwarg is not None and a.kwarg.arg not in env:
+        env[a.kwarg.arg] = {}
+
+
 def _PKG_MISSING():
     from .pkgenv import _MISSING
 
@@ -171,6 +186,7 @@ _SAFE_BUILTINS = {
 }
 
 _SAFE_METHODS = {
+    __import__("collections").OrderedDict: {"move_to_end", "popitem"},
     str: {"isspace", "isupper", "islower", "swapcase", "isnumeric", "isdecimal", "format_map", "istitle", "rindex", "isascii", "translate", "rpartition", "removeprefix", "removesuffix", "isalpha", "isalnum", "isidentifier", "splitlines", "title", "capitalize", "index", "rfind", "casefold", "center", "ljust", "rjust", "expandtabs", "encode",
           "split", "startswith", "endswith", "lower", "upper", "replace", "strip", "join", "format", "rsplit", "partition", "zfill", "isdigit", "lstrip", "rstrip", "find", "count"},
     # mutators are allowed: every value here is a model value owned by the evaluator
@@ -306,6 +322,8 @@ class MiniEval:
                 return getattr(obj, n.attr)
         if type(obj).__name__ == "Token" and isinstance(obj, str) and n.attr in ("update", "type", "value", "line", "column", "end_line", "end_column", "start_pos", "end_pos"):
             return getattr(obj, n.attr)  # a lark Token (a str with position attributes)
+        if hasattr(obj, "_cg_fdef") and not n.attr.startswith("_cg_") and n.attr in getattr(obj, "__dict__", {}):
+            return obj.__dict__[n.attr]  # an attribute the evaluated code stored on its own function object
         if callable(obj) and n.attr in ("register", "dispatch", "cache_clear", "cache_info", "__wrapped__", "__name__", "__doc__", "func", "args", "keywords") and hasattr(obj, n.attr):
             return getattr(obj, n.attr)  # attributes of function objects: singledispatch registry, lru_cache controls, partial parts
         if isinstance(obj, type) and issubclass(obj, Model) and not n.attr.startswith("_") and hasattr(obj, n.attr):
@@ -324,6 +342,8 @@ class MiniEval:
         if isinstance(obj, (str, int, float, bool, bytes, list, tuple, set, frozenset, dict)) and not hasattr(obj, n.attr):
             # CPython's own answer for its own data types
             raise ModelRaise("AttributeError", f"'{type(obj).__name__}' object has no attribute '{n.attr}'")
+        if hasattr(obj, "_cg_fdef") and not n.attr.startswith("_"):
+            raise ModelRaise("AttributeError", f"'function' object has no attribute '{n.attr}'")  # nothing stored such an attribute on it
         raise Unsupported(f"attribute {n.attr} on {type(obj).__name__}")
 
     def ev_Call(self, n):
@@ -395,10 +415,33 @@ class MiniEval:
                 setattr(obj, name, value)  # classes / objects the evaluated code defines itself
                 return None
             raise Unsupported(f"setattr on {type(obj).__name__}")
+        if isinstance(n.func, ast.Name) and n.func.id == "vars" and "vars" not in self.env and len(n.args) == 1 and not n.keywords:
+            obj = self.ev(n.args[0])
+            if type(obj).__name__ == "UserClass":
+                # the namespace of a class the evaluated code defines: plain methods are plain functions there (read-only view)
+                return {k: (v.clo if type(v).__name__ == "_Method" and getattr(v, "kind", None) == "plain" else v) for k, v in obj._uc_ns.items()}
+            raise Unsupported(f"vars() of {type(obj).__name__}")
         if isinstance(n.func, ast.Name) and n.func.id in ("getattr", "hasattr") and n.func.id not in self.env and 2 <= len(n.args) <= 3:
             obj = self.ev(n.args[0])
             name = self.ev(n.args[1])
-            ok = isinstance(name, str) and (isinstance(obj, Model) or isinstance(obj, (str, list, dict, set, tuple)))
+            if isinstance(name, str) and hasattr(obj, "_cg_fdef") and not name.startswith("_cg_"):
+                # a function object of the evaluated code: its descriptive attributes and whatever the code itself stored on it
+                if name in obj.__dict__ or name in ("__name__", "__qualname__", "__doc__"):
+                    return True if n.func.id == "hasattr" else getattr(obj, name)
+                if n.func.id == "hasattr":
+                    return False
+                if len(n.args) == 3:
+                    return self.ev(n.args[2])
+                raise ModelRaise("AttributeError", f"'function' object has no attribute '{name}'")
+            if isinstance(name, str) and type(obj).__name__ == "_Method" and not name.startswith("__"):
+                # a staticmethod / classmethod / property object found in a class namespace: it does not carry the attributes stored
+                # on the function it wraps
+                if n.func.id == "hasattr":
+                    return False
+                if len(n.args) == 3:
+                    return self.ev(n.args[2])
+                raise ModelRaise("AttributeError", f"'{obj.kind}' object has no attribute '{name}'")
+            ok = isinstance(name, str) and (isinstance(obj, Model) or isinstance(obj, (str, list, dict, set, tuple, int, float, frozenset, bytes, type(None))))
             if not ok:
                 raise Unsupported(f"{n.func.id} on {type(obj).__name__}")
             private_ok = getattr(type(obj), "_allow_private", False) or (isinstance(obj, Model) and name in obj.__dict__.get("_user_attrs", ()))
@@ -552,10 +595,10 @@ class MiniEval:
                 return -v
             if isinstance(n.op, ast.UAdd):
                 return +v
-            if isinstance(n.op, ast.Invert) and isinstance(v, int):
+            if isinstance(n.op, ast.Invert) and (isinstance(v, int) or type(v).__name__ == "UserInstance"):
                 return ~v
         except TypeError as e:
-            if _plain_value(v):
+            if _plain_value(v) or (type(v).__name__ == "UserInstance" and "bad operand type" in str(e)):
                 raise ModelRaise("TypeError", f"{norm(n)[:40]}: {e}")
         raise Unsupported(norm(n))
 
@@ -588,6 +631,10 @@ class MiniEval:
         except ZeroDivisionError as e:
             raise ModelRaise("ZeroDivisionError", str(e))
         except TypeError as e:
+            ui = [type(x).__name__ == "UserInstance" for x in (a, b)]
+            if any(ui) and all(u or _plain_value(x) for u, x in zip(ui, (a, b))) and "unsupported operand" in str(e):
+                # neither class defines the operation (the special methods of evaluated classes are dispatched exactly)
+                raise ModelRaise("TypeError", f"{norm(n)[:40]}: {e}")
             raise Unsupported(f"binop {norm(n)}: {e}")
         raise Unsupported(norm(n))
 
@@ -737,8 +784,8 @@ class MiniEval:
                 # a private attribute the evaluated code itself introduces (a cache, a flag): kept apart from model internals
                 obj.__dict__.setdefault("_user_attrs", set()).add(target.attr)
                 obj.__dict__[target.attr] = value
-            elif hasattr(obj, "_cg_fdef") and target.attr in ("__name__", "__qualname__", "__doc__", "__wrapped__", "__module__"):
-                setattr(obj, target.attr, value)  # the descriptive attributes of a function object
+            elif hasattr(obj, "_cg_fdef") and not target.attr.startswith("_cg_"):
+                setattr(obj, target.attr, value)  # a function object takes attributes (its descriptive ones, a registration mark ...)
             else:
                 raise Unsupported(f"attribute store on {type(obj).__name__}")
         elif isinstance(target, ast.Subscript):
@@ -1049,6 +1096,9 @@ class BlockInterp:
 
         closure._cg_fdef = fdef
         closure._cg_interp = outer
+        if isinstance(fdef, (ast.FunctionDef, ast.AsyncFunctionDef)):
+            closure.__name__ = closure.__qualname__ = fdef.name
+            closure.__doc__ = ast.get_docstring(fdef)
         return closure
 
     def _handler_names(self, x):
